@@ -39,9 +39,10 @@ def predict_observer(trace, scripts, initial, obs_addrs, remove_obs):
     active = set(initial)
     hits = {}
     obs_on = True
+    obs_live = set(obs_addrs)      # remove_breakpoints_by_address drops every callback of the address
     log = []
     for pos, addr in enumerate(trace):
-        if obs_on and addr in obs_addrs:
+        if obs_on and addr in obs_live:
             log.append(addr)
         if addr not in active:
             continue
@@ -57,6 +58,8 @@ def predict_observer(trace, scripts, initial, obs_addrs, remove_obs):
             for a in act[1]:
                 active.add(a)
             for a in act[2]:
+                if a in active:
+                    obs_live.discard(a)
                 active.discard(a)
     return log
 
